@@ -77,3 +77,112 @@ def _gi(i, v, idx, node):
 
 TRUSTED["numpy.random.SeedSequence.spawn"] = ("spawn(n)[i] is a function of (parent entropy, children spawned before, n, i) and advances the parent's counter; that distinct i give "
                                               "independent non-overlapping streams is numpy's guarantee (assumed, not proved)")
+
+
+# ------------------------------------------------------------------ Generator methods (results under-specified:
+# every outcome numpy may produce is allowed, so postconditions hold for every generator state)
+from .arrays import Arr, define1, new_arr, check_live  # noqa
+from ..spec import Type  # noqa
+
+
+class TGenerator(Type):
+    def fresh(self, ctx, name):
+        return GenTok(ctx.fresh(name, Gen))
+
+
+def _log(i, g, what, args):
+    i.ctx.ghost.setdefault("draws", []).append((g.term, what, args))
+
+
+@hook("getattr")
+def _gen_methods(i, g, name, node, fr):
+    if not isinstance(g, GenTok):
+        return NotImplemented
+    if name == "choice":
+        def choice(interp, s, a, kw, n, f):
+            src = a[0]
+            size = kw.get("size", a[1] if len(a) > 1 else None)
+            replace = kw.get("replace", a[2] if len(a) > 2 else True)
+            if isinstance(src, int) or is_sym_int(src):
+                N = to_z3(src, Int)
+                get = lambda p: p  # noqa
+            elif isinstance(src, Arr) and src.ndim == 1:
+                check_live(src, n)
+                N = to_z3(src.shape[0], Int)
+                get = lambda p: z3.Select(src.data, p)  # noqa
+                elem = src.elem_sort
+            else:
+                raise Unsupported("rng.choice over %r" % (src,), n)
+            elem = Int if not isinstance(src, Arr) else src.elem_sort
+            _log(interp, s, "choice", (src, size, replace))
+            if size is None:
+                interp.safe("choice_nonempty", N > 0, n)
+                p = interp.ctx.fresh("choice_pos", Int)
+                interp.ctx.assume(z3.And(p >= 0, p < N))
+                return get(p)
+            sz = to_z3(size, Int)
+            if replace is False:
+                interp.ctx.prove("%s/safe:choice_size@%s" % (interp._cur_label, getattr(n, "lineno", "?")), z3.And(sz >= 0, sz <= N), n, "safe")
+            elif replace is not True:
+                raise Unsupported("rng.choice with symbolic replace", n)
+            else:
+                interp.ctx.prove("%s/safe:choice_size@%s" % (interp._cur_label, getattr(n, "lineno", "?")), z3.And(sz >= 0, z3.Implies(sz > 0, N > 0)), n, "safe")
+            out = new_arr(interp, (sz,), elem, "choice")
+            pos = interp.ctx.fresh("choice_posn", z3.ArraySort(Int, Int))
+            k, k2 = z3.Int("k!ch"), z3.Int("k2!ch")
+            pk = z3.Select(pos, k)
+            interp.ctx.assume(z3.ForAll([k], z3.Implies(z3.And(k >= 0, k < sz), z3.And(pk >= 0, pk < N, z3.Select(out.data, k) == get(pk))),
+                                        patterns=[z3.Select(out.data, k)]))
+            if replace is False:
+                interp.ctx.assume(z3.ForAll([k, k2], z3.Implies(z3.And(k >= 0, k < k2, k2 < sz), z3.Select(pos, k) != z3.Select(pos, k2)),
+                                            patterns=[z3.MultiPattern(z3.Select(pos, k), z3.Select(pos, k2))]))
+            out.choice_pos = pos
+            return out
+        return BoundMethod(g, choice)
+    if name == "permutation":
+        def perm(interp, s, a, kw, n, f):
+            src = a[0]
+            _log(interp, s, "permutation", (src,))
+            if isinstance(src, int) or is_sym_int(src):
+                N = to_z3(src, Int)
+                get, elem, dt = (lambda p: p), Int, "int"
+            elif isinstance(src, Arr) and src.ndim == 1:
+                N = to_z3(src.shape[0], Int)
+                get, elem, dt = (lambda p: z3.Select(src.data, p)), src.elem_sort, src.dtype
+            else:
+                raise Unsupported("rng.permutation of %r" % (src,), n)
+            out = new_arr(interp, (N,), elem, "perm", dt)
+            pi = interp.ctx.fresh("pi", z3.ArraySort(Int, Int))
+            pinv = interp.ctx.fresh("pi_inv", z3.ArraySort(Int, Int))
+            k = z3.Int("k!pm")
+            pk, ik = z3.Select(pi, k), z3.Select(pinv, k)
+            interp.ctx.assume(z3.ForAll([k], z3.Implies(z3.And(k >= 0, k < N), z3.And(pk >= 0, pk < N, z3.Select(pinv, pk) == k,
+                                                                                   z3.Select(out.data, k) == get(pk))),
+                                        patterns=[z3.Select(out.data, k), z3.Select(pi, k)]))
+            interp.ctx.assume(z3.ForAll([k], z3.Implies(z3.And(k >= 0, k < N), z3.And(ik >= 0, ik < N, z3.Select(pi, ik) == k)),
+                                        patterns=[z3.Select(pinv, k)]))
+            out.perm = (pi, pinv)
+            return out
+        return BoundMethod(g, perm)
+    if name in ("random", "uniform"):
+        def rnd(interp, s, a, kw, n, f):
+            _log(interp, s, name, tuple(a))
+            if a or kw:
+                raise Unsupported("rng.%s with arguments" % name, n)
+            r = interp.ctx.fresh("rand", Real)
+            interp.ctx.assume(z3.And(r >= 0, r < 1))
+            return r
+        return BoundMethod(g, rnd)
+    raise Unsupported("Generator.%s is not modelled" % name, node)
+
+
+TRUSTED["numpy.random.Generator.choice"] = ("choice(a, size, replace=False): `size` members of a at pairwise distinct positions (requires size <= len(a)); "
+                                            "replace=True: members of a; every outcome allowed")
+TRUSTED["numpy.random.Generator.permutation"] = "permutation(a): a rearranged by some bijection of positions; every bijection allowed"
+
+
+@hook("havoc_object")
+def _havoc_gen(i, v, name, node):
+    if isinstance(v, (GenTok, SeedSeqV)):
+        return True  # generator state is not tracked: every draw is already an arbitrary admissible outcome
+    return NotImplemented
